@@ -74,7 +74,7 @@ func fieldOption(kind int, path string) (ucfg.Option, int) {
 	}
 }
 
-var c16Paths = []string{"a", "a.b", "b", "x", "**.b", "a.l", "*.b", "p.1", "p.1.k"}
+var c16Paths = []string{"a", "a.b", "b", "x", "**.b", "a.l", "*.b", "p.1", "p.1.k", "**.zzz"}
 
 // c16Tree: {a: {b: L1, l: L2, c: {b: L3}}, b: L4, q: {b: L5}} where every L is a list
 // (so every policy is observable) of chosen length.
